@@ -48,10 +48,18 @@ def run_property(spec, tier="quick"):
     status = 0
     err = None
     prog = None
+    errors = []
     try:
         prog = Program()
         for rule in spec["rules"]:
-            rule(prog, report, tier)
+            try:
+                rule(prog, report, tier)
+            except AnalysisError as e:
+                errors.append("rule %s: %s" % (getattr(rule, "__name__", "?"), e))
+            except Exception:
+                errors.append("rule %s crashed:\n%s" % (getattr(rule, "__name__", "?"), traceback.format_exc()))
+        if errors:
+            raise AnalysisError("; ".join(errors))
         for rule_name, floor in spec.get("floors", {}).items():
             n = report.count(rule_name)
             if any(f.rule == rule_name for f in report.findings):
@@ -71,7 +79,7 @@ def run_property(spec, tier="quick"):
     lines = []
     n_viol = 0
     known_hit = []
-    if status != 2:
+    if True:
         for i, f in enumerate(report.findings, 1):
             k = known_keys.get(f.key())
             if k is not None:
